@@ -3262,6 +3262,8 @@ class SchemaValidator:
                     effective_checkpoint_ref = utils.as_namespaced_ref(
                         schema_id, psuedo_checkpoint_alias, "checkpoint"
                     )
+                    # psuedo-checkpoints have no id, so they are registered under their alias
+                    self._checkpoints[effective_checkpoint_ref] = schema["checkpoints"][-1]
                     nested_checkpoint_refs.append(parent_thread_group_checkpoint_ref)
                     nested_checkpoint_refs.append(thread_group_checkpoint_ref)
 
@@ -3391,6 +3393,8 @@ class SchemaValidator:
                             schema_id, psuedo_checkpoint_alias, "checkpoint"
                         )
                         self._action_checkpoint_refs[action_ref] = psuedo_checkpoint_ref
+                        # psuedo-checkpoints have no id, so they are registered under their alias
+                        self._checkpoints[psuedo_checkpoint_ref] = schema["checkpoints"][-1]
                         nested_checkpoint_refs.append(thread_checkpoint_ref)
                         nested_checkpoint_refs.append(action_checkpoint_ref)
 
